@@ -438,7 +438,7 @@ def run_case(rec, inp):
 def plan(tier, rng):
     """list of (stream, types, cosmology, interp)"""
     out = []
-    reps = 1 if tier == "quick" else 4
+    reps = 1 if tier == "quick" else 7
     for rep in range(reps):
         for ic, cosmology in enumerate(COSMOLOGIES):
             for interp in (False, True):
